@@ -36,7 +36,7 @@ ASSUMPTIONS = [
 ]
 
 DELETABLE = ("warmup",)
-NODE_REPS = ("0", "1", "255", "256", "-1", "", "a", " 2")
+NODE_REPS = ("0", "1", "255", "256", "-1", "", "a", " 2", "{}", "%s")
 CHILD_REPS = ("0", "1", "254", "255", "256", "-1", "", "a")
 CMD_REPS = ("0", "1", "2", "3", "4", "5", "-1", "", "a")
 ACK_REPS = ("0", "1", "2", "-1", "", "a")
@@ -44,6 +44,7 @@ TYPE_REPS = ("0", "3", "4", "9", "33", "-1", "", "a")
 ODD = (
     "256", "-1", "-0", "5", "2", "", "a", "1a", "1.0", "0x1", "1e1", "--1", "true", " 1", "1 ", "01", "+1", "1_0",
     "١", "99999999999999999999", "-99999999999999999999", "255", "254", "0", "\t3", "None", "1;1",
+    "{}", "{0}", "{input}", "{", "}", "{input.x}", "%s", "%(input)s", "%d", "%", "${x}", "\\x41", "{\"temp\":21}",
     "0255", "+255", "2_55", " 255", "00", "+0", "0254", "+3", "03", "+4", "004", "²", "¹", "①", "1²", "٣", "٢٥٥", "9" * 4400, "-" + "9" * 4400, "１",
 )
 ENDINGS = ("\n", "", "\r\n", " ", "\n\n", "\t\n")
@@ -123,6 +124,17 @@ def enumerate_cases(tier: str):
             for head in ("0;255;3;0;9;", "12;3;1;1;47;", "7;255;0;0;17;"):
                 yield {"version": version, "line": head + inner + "\n"}
                 yield {"version": version, "line": head + inner}
+    # format-string metacharacters in one field while another field is out of range / ill-formed (error messages built from the input)
+    for version in ("1.4", "2.2"):
+        for meta in ("{}", "{0}", "{input}", "{input.x}", "}", "{", "%s", "%(x)s", "%d", "{\"temp\":21}"):
+            for pos in range(5):
+                for bad_pos, bad in ((0, "256"), (1, "300"), (1, "999"), (2, "9"), (3, "7"), (4, "x"), (1, "-1")):
+                    if bad_pos == pos:
+                        continue
+                    fields = ["1", "1", "1", "0", "2"]
+                    fields[pos] = meta
+                    fields[bad_pos] = bad
+                    yield {"version": version, "line": ";".join(fields) + ";21\n"}
     # the line arrives as MQTT topic levels + payload: an empty or odd level may not shift the payload into the header
     for version in ("1.4", "2.2"):
         for head in (["0", "255", "3", "0", "9"], ["12", "3", "1", "1", "47"], ["7", "255", "0", "0", "17"], ["3", "5", "3", "0", "3"], ["4", "255", "4", "0", "1"]):
